@@ -105,6 +105,8 @@ type FuncVC struct {
 	axiomText   []string
 	assigned    map[string][]*Loc
 	skolems     map[string][][]Term
+	skolemFns   map[string][]skolemFn
+	goalSkolemised bool // the last goal evaluation replaced a universal by fresh constants
 	funCache    map[string]string
 	stable      []*Loc
 	stableDone  bool
@@ -116,6 +118,7 @@ type FuncVC struct {
 	cellConst   map[*ssa.FreeVar]Term
 	closureOf   map[string]*ssa.Function
 	closureMC   map[string]*ssa.MakeClosure
+	lemmasUsed  map[string]bool
 	escapes     map[ssa.Value][]ssa.Instruction
 	breach      map[*ssa.BasicBlock]map[*ssa.BasicBlock]bool
 	assignsOpaque bool
@@ -154,7 +157,7 @@ func NewFuncVC(p *Prog, fn *ssa.Function, c *Contract) *FuncVC {
 		loopOf: map[*ssa.BasicBlock]*loopInfo{}, nonNil: map[ssa.Value]bool{}, localAlloc: map[*ssa.Alloc]bool{},
 		debugRefs: map[string][]*ssa.DebugRef{}, typeIDs: map[string]int{}, concreteTypes: map[int]types.Type{}, ifaceTypes: map[int]types.Type{}, boxDecl: map[string]bool{},
 		funcDecl: map[string]bool{}, oblSeq: map[string]int{}, abstracted: map[string]int{},
-		assumedUsed: map[string]bool{}, contractUse: map[string]bool{}, iterOf: map[ssa.Value]*iterInfo{}, logicUsed: map[string]bool{}, logTypes: map[string]types.Type{}, axiomDone: map[*Clause]bool{}, skolems: map[string][][]Term{}, funCache: map[string]string{}, escapes: map[ssa.Value][]ssa.Instruction{}, cellConst: map[*ssa.FreeVar]Term{}, freshVals: map[ssa.Value]bool{}, closureOf: map[string]*ssa.Function{}, closureMC: map[string]*ssa.MakeClosure{}}
+		assumedUsed: map[string]bool{}, contractUse: map[string]bool{}, iterOf: map[ssa.Value]*iterInfo{}, logicUsed: map[string]bool{}, logTypes: map[string]types.Type{}, axiomDone: map[*Clause]bool{}, skolems: map[string][][]Term{}, skolemFns: map[string][]skolemFn{}, funCache: map[string]string{}, escapes: map[ssa.Value][]ssa.Instruction{}, cellConst: map[*ssa.FreeVar]Term{}, freshVals: map[ssa.Value]bool{}, closureOf: map[string]*ssa.Function{}, closureMC: map[string]*ssa.MakeClosure{}, lemmasUsed: map[string]bool{}}
 	if c != nil {
 		vc.watches = c.Watches
 		vc.bv = c.Mode == "bv"
@@ -203,6 +206,17 @@ func (vc *FuncVC) fresh(prefix, sort string) Term {
 	return vc.declare(fmt.Sprintf("%s!%d", prefix, vc.seq), sort)
 }
 
+// named returns an atom for t: t itself when it already is one, else a fresh constant
+// defined equal to it (keeps quantifier patterns free of ite/store terms).
+func (vc *FuncVC) named(prefix string, t Term) Term {
+	if !strings.ContainsAny(t.S, " (") || (strings.HasPrefix(t.S, "|") && strings.Count(t.S, "|") == 2) {
+		return t
+	}
+	c := vc.fresh(prefix, t.Sort)
+	vc.assume(Eq(c, t))
+	return c
+}
+
 // declFun declares an uninterpreted function once (in the prelude).
 func (vc *FuncVC) declFun(name string, args []string, res string) string {
 	n := sym(name)
@@ -227,6 +241,12 @@ func (vc *FuncVC) comp(name, sort string, repo bool) string {
 
 // oblige records a proof obligation and then assumes it (assert-then-assume).
 func (vc *FuncVC) oblige(kind, name string, guard, formula Term, desc string) {
+	vc.obligeWith(kind, name, guard, formula, formula, desc)
+}
+
+// obligeWith records an obligation whose assumed form (after the proof) differs
+// from its goal form (universals proved for fresh constants).
+func (vc *FuncVC) obligeWith(kind, name string, guard, formula, hyp Term, desc string) {
 	if formula.S == "true" {
 		return
 	}
@@ -236,7 +256,7 @@ func (vc *FuncVC) oblige(kind, name string, guard, formula Term, desc string) {
 	}
 	o := &Obl{Name: vc.P.shortName(vc.Name) + "#" + name, Kind: kind, Pos: len(vc.lines), Guard: guard, Formula: formula, Desc: desc, Fn: vc.Name}
 	vc.obls = append(vc.obls, o)
-	vc.assume(Implies(guard, formula))
+	vc.assume(Implies(guard, hyp))
 }
 
 func (vc *FuncVC) cover(name string, guard Term) {
@@ -360,9 +380,15 @@ func (vc *FuncVC) Run() (err error) {
 		return fmt.Errorf("%s has no body", vc.Name)
 	}
 	vc.comp("alloc", arraySort(SInt, SBool), false)
+	vc.comp("escaped", arraySort(SInt, SBool), false)
 	vc.comp("clock", SInt, false)
 	vc.entryState = vc.newState(stEntry, nil)
 	vc.cur = vc.entryState
+	// everything that exists when the function is entered is (potentially) known to other code
+	{
+		a0, e0 := vc.entryState.get("alloc"), vc.entryState.get("escaped")
+		vc.assume(T(fmt.Sprintf("(forall ((r Int)) (! (=> (select %s r) (select %s r)) :pattern ((select %s r))))", a0.S, e0.S, e0.S), SBool))
+	}
 	vc.scanAllocs()
 	for _, p := range fn.Params {
 		t := vc.declare("p!"+p.Name(), vc.sortOf(p.Type()))
@@ -392,6 +418,23 @@ func (vc *FuncVC) Run() (err error) {
 		env := vc.newEnv(vc.entryState, vc.entryState)
 		for _, r := range vc.C.Requires {
 			vc.assume(vc.evalBool(env, r))
+		}
+		// lemmas this contract relies on: proved separately (check.go), assumed here
+		for _, name := range vc.C.Uses {
+			found := false
+			for _, l := range vc.P.CS.Lemmas {
+				if l.Name == name {
+					lenv := vc.newEnv(vc.entryState, vc.entryState)
+					lenv.callee = true
+					lenv.calleeCon = &Contract{Pkg: l.Pkg}
+					vc.assume(vc.evalBool(lenv, l.Clause))
+					vc.lemmasUsed[name] = true
+					found = true
+				}
+			}
+			if !found {
+				panic(fmt.Errorf("uses: lemma %s not found", name))
+			}
 		}
 	}
 	vc.cover("cover.pre", tTrue)
@@ -506,7 +549,8 @@ func (vc *FuncVC) execBlock(b *ssa.BasicBlock) {
 			env.loop = li
 			env.phiEdge = e.i
 			for _, inv := range invs {
-				vc.oblige("inv.entry", fmt.Sprintf("inv.loop%d.%s.entry", li.ordinal, inv.name), e.cond, inv.goal(env), inv.src)
+				g, h := inv.goalHyp(vc, env)
+				vc.obligeWith("inv.entry", fmt.Sprintf("inv.loop%d.%s.entry", li.ordinal, inv.name), e.cond, g, h, inv.src)
 			}
 		}
 		for _, ph := range phis {
@@ -572,6 +616,16 @@ type invFn struct {
 	g    func(env *Env) Term // as a goal (nil: same as f)
 }
 
+// goalHyp returns the invariant as a goal and in the form assumed after the proof.
+func (i invFn) goalHyp(vc *FuncVC, env *Env) (Term, Term) {
+	vc.goalSkolemised = false
+	g := i.goal(env)
+	if !vc.goalSkolemised {
+		return g, g
+	}
+	return g, i.f(env)
+}
+
 func (i invFn) goal(env *Env) Term {
 	if i.g != nil {
 		return i.g(env)
@@ -590,13 +644,69 @@ func (vc *FuncVC) loopInvs(li *loopInfo) []invFn {
 			out = append(out, invFn{clauseName(c, n), c.Src, func(env *Env) Term { return vc.evalBool(env, c) }, func(env *Env) Term { return vc.evalGoal(env, c) }})
 		}
 	}
+	if li.modset["escaped"] || li.havoc {
+		out = append(out, invFn{"auto.escaped", "objects that existed at entry stay published", func(env *Env) Term {
+			a0, e := vc.entryState.get("alloc"), env.st.get("escaped")
+			if e.S == vc.entryState.get("escaped").S {
+				return tTrue
+			}
+			e = vc.named("esc", e)
+			return T(fmt.Sprintf("(forall ((r Int)) (! (=> (select %s r) (select %s r)) :pattern ((select %s r))))", a0.S, e.S, e.S), SBool)
+		}, nil})
+	}
 	if li.modset["alloc"] || li.havoc {
+		// relative to the state in which the loop is entered (single entry edge)
+		var entryPreds []*ssa.BasicBlock
+		for _, p := range li.header.Preds {
+			if !isBackEdge(p, li.header) {
+				entryPreds = append(entryPreds, p)
+			}
+		}
+		if len(entryPreds) == 1 {
+			if pst := vc.exit[entryPreds[0]]; pst != nil {
+				apre := vc.named("alcpre", pst.get("alloc"))
+				out = append(out, invFn{"auto.allocpre", "allocation only grows (since loop entry)", func(env *Env) Term {
+					a := env.st.get("alloc")
+					if a.S == apre.S {
+						return tTrue
+					}
+					a = vc.named("alc", a)
+					return T(fmt.Sprintf("(forall ((r Int)) (! (=> (select %s r) (select %s r)) :pattern ((select %s r))))", apre.S, a.S, a.S), SBool)
+				}, nil})
+			}
+		}
 		out = append(out, invFn{"auto.alloc", "allocation only grows", func(env *Env) Term {
 			a0, a := vc.entryState.get("alloc"), env.st.get("alloc")
 			if a0.S == a.S {
 				return tTrue
 			}
+			a = vc.named("alc", a)
 			return T(fmt.Sprintf("(forall ((r Int)) (! (=> (select %s r) (select %s r)) :pattern ((select %s r))))", a0.S, a.S, a.S), SBool)
+		}, nil})
+	}
+	// range over a map: the ranged map keeps the key set (and values) it had when the
+	// iteration started — checked like any invariant, so a body that updates it fails here
+	for _, in := range li.header.Instrs {
+		nx, ok := in.(*ssa.Next)
+		if !ok {
+			continue
+		}
+		it := vc.iterOf[nx.Iter]
+		if it == nil || it.isStr {
+			continue
+		}
+		rg := nx.Iter.(*ssa.Range)
+		if li.havoc {
+			// opaque calls in the body: whether they reach the ranged map is not decidable
+			// here; the iteration keeps its snapshot semantics (assumption, reported)
+			vc.note("loop %d ranges over a map and contains opaque calls: the map is assumed not to be modified by them during the iteration", li.ordinal)
+			continue
+		}
+		out = append(out, invFn{"auto.maprange." + rg.Name(), "the ranged map is not modified by the loop", func(env *Env) Term {
+			dc, vn := vc.mapComps(it.mapType)
+			ks, vs := vc.sortOf(it.mapType.Key()), vc.sortOf(it.mapType.Elem())
+			m := vc.term(rg.X)
+			return And(Eq(Select(env.st.get(dc), m, arraySort(ks, SBool)), it.domAt), Eq(Select(env.st.get(vn), m, arraySort(ks, vs)), it.valAt))
 		}, nil})
 	}
 	// call logs with the default tag: the n-th call is logged under n, so the logged
